@@ -389,25 +389,7 @@ func (w *World) sideOptions() []kernel.Option {
 		}})
 	}
 	if w.proxy != nil && w.rootFlips < 3 {
-		opts = append(opts, kernel.Option{Key: "a log changes its accepted roots", Weight: 2, Apply: func() {
-			t := w.s.T
-			l := w.logs[t.Intn(len(w.logs))]
-			r := t.Intn(len(w.roots))
-			if l.Roots[r] {
-				delete(l.Roots, r)
-			} else {
-				l.Roots[r] = true
-			}
-			w.rootFlips++
-			w.rootsSettled = false
-			for _, c := range w.calls {
-				if !c.Checked {
-					c.RootsMoved = true
-				}
-			}
-			w.s.Fault("roots.change")
-			w.s.Logf("%s now accepts roots %v", l.URL, sortedRoots(l.Roots))
-		}})
+		opts = append(opts, w.rootFlipOption())
 	}
 	if w.proxy != nil {
 		opts = append(opts,
@@ -486,4 +468,27 @@ func (w *World) proxyList(parked []*kernel.Parked) int {
 		return -1
 	}
 	return w.llWhich
+}
+
+// rootFlipOption: one log drops or adopts one root.
+func (w *World) rootFlipOption() kernel.Option {
+	return kernel.Option{Key: "a log changes its accepted roots", Weight: 2, Apply: func() {
+		t := w.s.T
+		l := w.logs[t.Intn(len(w.logs))]
+		r := t.Intn(len(w.roots))
+		if l.Roots[r] {
+			delete(l.Roots, r)
+		} else {
+			l.Roots[r] = true
+		}
+		w.rootFlips++
+		w.rootsSettled = false
+		for _, c := range w.calls {
+			if !c.Checked {
+				c.RootsMoved = true
+			}
+		}
+		w.s.Fault("roots.change")
+		w.s.Logf("%s now accepts roots %v", l.URL, sortedRoots(l.Roots))
+	}}
 }
